@@ -17,7 +17,7 @@ def emit_cases(shape, impulses, num, seed, chk, vals="-3..3", pvals="{-2, -1, 1,
     nops = 26 if len(shape) == 2 else 45
     res = tlc.run_wrapped(
         "MC_Kernels",
-        {"Shape": list(shape), "Impulses": impulses},
+        {"Shape": list(shape), "Impulses": impulses, "OnlyOps": set()},
         CFG,
         raw={"Vals": vals, "PVals": pvals},
         mode="simulate",
